@@ -928,3 +928,8 @@ func init() {
 	mut("C11", "decoder hands a shared helper the valid/missed values in swapped order", true, "mirror|rhp/v2|RPCSectorRootsRequest",
 		Edit{"rhp/v2/encoding.go", "func (r *RPCSectorRootsRequest) DecodeFrom(d *types.Decoder) {\n\tr.RootOffset = d.ReadUint64()\n\tr.NumRoots = d.ReadUint64()\n\tr.RevisionNumber = d.ReadUint64()\n\ttypes.DecodeSliceCast[types.V1Currency](d, &r.ValidProofValues)\n\ttypes.DecodeSliceCast[types.V1Currency](d, &r.MissedProofValues)", "func (r *RPCSectorRootsRequest) DecodeFrom(d *types.Decoder) {\n\tr.RootOffset = d.ReadUint64()\n\tr.NumRoots = d.ReadUint64()\n\tr.RevisionNumber = d.ReadUint64()\n\ttypes.DecodeSliceCast[types.V1Currency](d, &r.MissedProofValues)\n\ttypes.DecodeSliceCast[types.V1Currency](d, &r.ValidProofValues)"})
 }
+
+func init() {
+	mut("C07", "renewal marks the contract resolved through a pointer taken before the renewed contract was appended", true, "stale-diff-pointer",
+		Edit{"consensus/application.go", "\tfced.V2FileContractElement = fce.Copy()\n\tfced.Resolution = res\n\tms.spends[fce.ID] = txid\n}", "\tfced.V2FileContractElement = fce.Copy()\n\tif r, ok := res.(*types.V2FileContractRenewal); ok {\n\t\tms.createV2FileContractElement(fce.ID.V2RenewalID(), r.NewContract)\n\t}\n\tfced.Resolution = res\n\tms.spends[fce.ID] = txid\n}"})
+}
